@@ -254,7 +254,9 @@ def run_tlc(
     """Run TLC on /verif/spec/<module>.tla with the given cfg (default <module>.cfg)."""
     cfg = cfg or module + ".cfg"
     meta = tempfile.mkdtemp(prefix="tlc-meta-")
-    jopts = ["-XX:+UseParallelGC", f"-Xmx{heap}", "-Xss512m"]
+    # java.io.tmpdir inside the per-run scratch directory: TLC unpacks its standard modules into a fresh tlc-* directory
+    # under it at every start and never removes it
+    jopts = ["-XX:+UseParallelGC", f"-Xmx{heap}", "-Xss512m", f"-Djava.io.tmpdir={meta}"]
     if depth_first:
         jopts.append("-Dtlc2.tool.queue.IStateQueue=StateDeque")
     cmd = (
